@@ -852,3 +852,67 @@ func R6DeferredCapture(c *Ctx) {
 	}
 	c.R.Extra["R6-deferred-capture.literals"] = n
 }
+
+// R6HandlerEffects — everything a callback can cause goes through the gated dispatcher.
+func R6HandlerEffects(c *Ctx) {
+	const rule = "R6-handler-effects"
+	c.R.Rule(rule, "handleDemonAgent (with its helpers in package handlers) calls state-changing or operator-visible methods of the teamserver and of the agent only from this list: UpdateLastCallback, TaskDispatch (which gates on the request id itself), GetQueuedJobs, AgentCallbackSize, and AgentAdd/AgentSendNotify in the registration branch; any other such call — a console message about dropped callbacks, say — is an effect a callback without an outstanding task can have; Teamserver.SendLogs() returns the SendLogs flag and nothing else", 5)
+	hd := c.P.Func(PkgHandlers, "handleDemonAgent")
+	if hd == nil {
+		c.R.Anchor(rule, "handlers.handleDemonAgent")
+		return
+	}
+	allowed := map[string]bool{".UpdateLastCallback": true, ".TaskDispatch": true, ".GetQueuedJobs": true, ".AgentCallbackSize": true, ".AgentAdd": true, ".AgentSendNotify": true}
+	for _, fn := range HelperClosure(hd, 2) {
+		if FuncPkgPathOf(fn) != PkgHandlers {
+			continue
+		}
+		EachCall(fn, func(call ssa.CallInstruction) {
+			name := CalleeName(call)
+			if !mutatorCall(name) {
+				return
+			}
+			construct := "call " + shortCallee(name)
+			ok := false
+			for suf := range allowed {
+				if strings.HasSuffix(name, suf) {
+					ok = true
+				}
+			}
+			if ok {
+				c.R.Ok(rule, FuncShort(fn), construct, c.pos(call.Pos()), "on the list", true)
+			} else {
+				c.R.Bad(rule, FuncShort(fn), construct, c.pos(call.Pos()), "the request handler itself calls a state-changing or operator-visible method outside the gated dispatcher: a callback without an outstanding task can cause it")
+			}
+		})
+	}
+	// the log-forwarding exemption is the SendLogs flag itself
+	sl := c.P.Func(PkgServer, "Teamserver.SendLogs")
+	if sl == nil {
+		c.R.Anchor(rule, "server.(*Teamserver).SendLogs")
+		return
+	}
+	for _, b := range sl.Blocks {
+		ret, ok := b.Instrs[len(b.Instrs)-1].(*ssa.Return)
+		if !ok || len(ret.Results) != 1 {
+			continue
+		}
+		v := ret.Results[0]
+		plain := false
+		if ld, isLd := v.(*ssa.UnOp); isLd && ld.Op == token.MUL {
+			if _, f, _, okF := FieldOf(ld.X); okF && f == "SendLogs" {
+				plain = true
+			}
+		}
+		if fv, isF := v.(*ssa.Field); isF {
+			if _, f, _, okF := FieldOf(fv); okF && f == "SendLogs" {
+				plain = true
+			}
+		}
+		if plain {
+			c.R.Ok(rule, FuncShort(sl), "return <flags>.SendLogs", c.pos(ret.Pos()), "the exemption is exactly the configured flag", true)
+		} else {
+			c.R.Bad(rule, FuncShort(sl), "return <flags>.SendLogs", c.pos(ret.Pos()), "SendLogs() answers with something other than the SendLogs flag (another flag or-ed in, a constant): beacon output is accepted without an outstanding task although log forwarding is off")
+		}
+	}
+}
